@@ -39,6 +39,21 @@ type Plan struct {
 	// which happens at execute time (concurrently across fields) the
 	// first time each concrete type is encountered for an abstract field.
 	abstractMu sync.Mutex
+
+	// subPlans shares the plan of one sub-selection between all the places
+	// that reach it: fields of a fragment spread at many sites are the same
+	// AST nodes everywhere, and planning them once per site doubles the plan
+	// with every link of a chain of fragments. Only written while planning
+	// (PlanQuery, or abstractAlternative under abstractMu).
+	subPlans map[subPlanKey]*selectionPlan
+}
+
+// subPlanKey identifies a sub-selection: the parent type and the field
+// occurrences (AST nodes) whose selection sets are merged.
+type subPlanKey struct {
+	parentType *Object
+	first      *ast.Field
+	rest       string
 }
 
 // selectionPlan is a pre-collected, source-ordered list of fields to
@@ -454,6 +469,35 @@ func (p *Plan) abstractAlternative(fp *fieldPlan, runtimeType *Object) *selectio
 // selectionPlan that mirrors what completeObjectValue's runtime
 // collectFields loop would produce.
 func (p *Plan) planMergedSelectionsForType(parentType *Object, merged *fieldPlan) *selectionPlan {
+	// Unconditional occurrences only: a gate belongs to the selection set it
+	// was collected for.
+	key, shareable := subPlanKey{parentType: parentType}, len(merged.fieldASTs) > 0
+	for i, f := range merged.fieldASTs {
+		if merged.occGates[i] != nil {
+			shareable = false
+			break
+		}
+		if i == 0 {
+			key.first = f
+		} else {
+			key.rest += fmt.Sprintf("%p,", f)
+		}
+	}
+	if shareable {
+		if sub, ok := p.subPlans[key]; ok {
+			return sub
+		}
+		if p.subPlans == nil {
+			p.subPlans = map[subPlanKey]*selectionPlan{}
+		}
+		sub := p.planSelectionsForType(parentType, merged)
+		p.subPlans[key] = sub
+		return sub
+	}
+	return p.planSelectionsForType(parentType, merged)
+}
+
+func (p *Plan) planSelectionsForType(parentType *Object, merged *fieldPlan) *selectionPlan {
 	sp := &selectionPlan{parentType: parentType}
 	keyed := map[string]int{}
 	visited := map[string]*fragmentVisit{}
